@@ -35,7 +35,7 @@ Definition wpc_key (p : wpc) : list Z :=
   | WAdv a => 303 :: adv_key a
   end.
 Definition tpc_key (p : tpc) : list Z := match p with TAbsorb => [400] | TK k u r => [401; kpc_z k; u] ++ r end.
-Definition ps_z (p : pstate) : list Z := match p with PNone => [0] | PRunning => [1] | PExited c => [2; c] | PKilled => [3] end.
+Definition ps_z (p : pstate) : list Z := match p with PNone => [0] | PRunning => [1] | PExited c => [2; c] | PKilled => [3] | PStubborn => [4] end.
 
 Definition state_key (dl : list Z) (s : state) : list Z :=
   flat_map (fun u => [b2z (tasks s u); b2z (procattr s u)] ++ ps_z (world s u)) dl
